@@ -383,3 +383,12 @@ func init() {
 		}
 	})
 }
+
+// runtime/debug.Stack (used only to decorate log messages in panic recovery paths): an empty trace.
+func init() {
+	moreRegs = append(moreRegs, func(eng *Engine) {
+		eng.intrinsics["runtime/debug.Stack"] = func(w *Worker, fr *frame, fn *ssa.Function, args []value) value {
+			return []value{}
+		}
+	})
+}
